@@ -758,7 +758,7 @@ PROPS["C01"] = {
                   "theorems are over all route sets/registration orders/paths; the model is tied to tree.go/leaf.go/router.go by "
                   "a differential check on random and small-scope-exhaustive route sets at both the Flame and the Tree level.",
     "level_note": "Trusted: Lean kernel; hand-written model tied by differential testing; regexp is a parameter.",
-    "props_modules": ["Flamego.Props.C01"],
+    "props_modules": ["Flamego.Props.C01", "Flamego.Proofs.TreeMatch", "Flamego.Proofs.TreeAdd"],
     "suite": "C01",
     "compare": lambda s, R, M: rp.cmp_dispatch(s, R, M),
     "stats": rp.router_stats(lambda op, r, m, n: r.startswith("h ") and n >= 2,
@@ -795,8 +795,12 @@ _router_entry("C02",
 _router_entry("C07",
     "Lean 4 theorems (serve is a total function with exactly one outcome; index-level matcher never slices out of range) + "
     "differential correspondence on arbitrary byte paths, methods and headers with recover() around ServeHTTP",
-    "Totality and single-outcome are by construction of the model; the correspondence feeds arbitrary bytes as path/method/headers, "
-    "recovers panics, counts chains through an application middleware and issues every request twice.",
+    "Totality and single-outcome are by construction of the model; the matcher is additionally modelled at the level of Go's string "
+    "indexes (Model/TreeIdx: path, next, every slice expression a possible panic) and proved, for every byte string and every tree, "
+    "never to slice out of range and to equal the segment-level matcher; the correspondence feeds arbitrary bytes as "
+    "path/method/headers, recovers panics, counts chains through an application middleware, issues every request twice (once more "
+    "with another request served on the same instance meanwhile) and runs the real Tree.Match against the index-level model on "
+    "every request (IREQ lines: leaf and captured values).",
     lambda s, R, M: rp.cmp_dispatch(s, R, M, chains=True),
     lambda op, r, m, n: True,
     "case = (route set, request); every distinct case counts (the quantifier is 'any request whatsoever'); distribution shows raw-byte paths and odd methods")
